@@ -35,6 +35,7 @@ THEOREMS = [
     "Nix.C09.invert_power_negates",
     "Nix.C09.invert_power_twice",
     "Nix.C09.split_compound_sequence",
+    "Nix.C09.split_compound_blanks",
     "Nix.C09.split_compound_roundtrip",
     "Nix.C09.scalable_iff_same_unit_power",
     "Nix.C09.scalable_lists",
